@@ -245,7 +245,7 @@ class Planner:
         from . import archs as _archs
 
         lin_in = [s["i"] for _, s in _archs.walk_leaves(a.arch) if s["k"] == "lin"]
-        if a.weights == "qint8" and a.dtype == "bfloat16" and any(i % 4 == 0 and i % 16 != 0 for i in lin_in):
+        if a.weights == "qint8" and a.dtype == "bfloat16" and any(i % 4 == 0 for i in lin_in):
             a.weights = r.choice([q for q in WQ if q != "qint8"])
         filt = None
         if self.sw["filter"] and r.random() < 0.5 and len(a.leaves) > 1:
